@@ -365,19 +365,13 @@ func clientFamily(r *run.R, t *testing.T, u *universe) {
 	})
 }
 
+// corruptBearer replaces whatever token the client presents by a well-formed one the server never
+// issued: the server answers 401 with a fresh challenge (the "token refused" path of the client).
 func corruptBearer(ps []kv) []kv {
-	v := getParam(ps, "bearer")
-	if v == "" {
+	if getParam(ps, "bearer") == "" {
 		return ps
 	}
-	// another valid base64 symbol inside the MAC: the server answers 401 + challenge, not 400
-	b := []byte(v)
-	if b[3] != 'A' {
-		b[3] = 'A'
-	} else {
-		b[3] = 'B'
-	}
-	return setParam(ps, "bearer", string(b))
+	return []kv{{"bearer", b64(make([]byte, 96))}}
 }
 
 func (sc *scen) clientCase(host string, cl, evilID, otherClient *ident, flow string) {
@@ -397,10 +391,12 @@ func (sc *scen) clientCase(host string, cl, evilID, otherClient *ident, flow str
 		// server-initiated handshake runs (the client object is reused: a failed attempt keeps the token)
 		shared = newRealClient(sc, cl, 0)
 		if res := shared.do(&wire{handler: honest(H)}, host, true, "valid", "first-contact"); res.err != nil {
+			// no token, no server-initiated flow: run the plans against the client-initiated one instead
 			sc.count("valid_rejected:real-client-handshake")
-			return
+			shared, flow = nil, flowClient
+		} else {
+			sc.count("cli_valid_accepted")
 		}
-		sc.count("cli_valid_accepted")
 	}
 	client := func() *realClient {
 		if shared != nil {
@@ -445,17 +441,26 @@ func (sc *scen) clientCase(host string, cl, evilID, otherClient *ident, flow str
 
 	// dry run: the unmodified relay must work, and tells us what the headers look like
 	dry := client().do(&wire{handler: def}, host, true, "valid", "transparent-relay")
+	var www, info []kv
+	earlierChallenge := sc.challenge()
 	if dry.err != nil || len(dry.log) <= infoStep {
+		// keep going: the attacker's own plans below do not need the dry run, and a tree on which the
+		// honest exchange fails may still accept a dishonest one
 		sc.count("valid_rejected:client-dry-run")
-		return
+	} else {
+		sc.count("cli_valid_accepted")
+		sc.bump(&sc.valid)
+		if flow == flowServer {
+			sc.count("real_client_serverinit_handshakes")
+		}
+		www = orderedParams(dry.log[wwwStep].hdr.Get("WWW-Authenticate"))
+		info = orderedParams(dry.log[infoStep].hdr.Get("Authentication-Info"))
+		for _, ex := range dry.log {
+			if ch := getParam(orderedParams(strings.Join(ex.authz, ", ")), "challenge-server"); ch != "" {
+				earlierChallenge = ch
+			}
+		}
 	}
-	sc.count("cli_valid_accepted")
-	sc.bump(&sc.valid)
-	if flow == flowServer {
-		sc.count("real_client_serverinit_handshakes")
-	}
-	www := orderedParams(dry.log[wwwStep].hdr.Get("WWW-Authenticate"))
-	info := orderedParams(dry.log[infoStep].hdr.Get("Authentication-Info"))
 	if sc.r.SampleN() < 5 && strings.HasSuffix(sc.caseID, "c0-ed25519/"+flowServer) {
 		sc.r.Sample(map[string]any{"case": sc.caseID, "honest_round_trips": logDump(dry.log),
 			"then": "a malicious round tripper mutates/replays/swaps every parameter of both response headers"})
@@ -492,8 +497,10 @@ func (sc *scen) clientCase(host string, cl, evilID, otherClient *ident, flow str
 	})
 
 	// 2. replay of an earlier genuine response (stale challenge-server)
-	runPlan("replay", "whole-www-of-earlier-run", editResp(wwwStep, "WWW-Authenticate", func([]kv) []kv { return www }))
-	runPlan("replay", "whole-info-of-earlier-run", editResp(infoStep, "Authentication-Info", func([]kv) []kv { return info }))
+	if www != nil {
+		runPlan("replay", "whole-www-of-earlier-run", editResp(wwwStep, "WWW-Authenticate", func([]kv) []kv { return www }))
+		runPlan("replay", "whole-info-of-earlier-run", editResp(infoStep, "Authentication-Info", func([]kv) []kv { return info }))
+	}
 	for _, k := range []string{"sig", "public-key", "challenge-client", "opaque"} {
 		if v := getParam(www, k); v != "" {
 			runPlan("replay", "www-"+k+"-of-earlier-run", editResp(wwwStep, "WWW-Authenticate", func(ps []kv) []kv { return setParam(ps, k, v) }))
@@ -551,6 +558,76 @@ func (sc *scen) clientCase(host string, cl, evilID, otherClient *ident, flow str
 		resp, _ := forward(E, req, "", edit)
 		return resp
 	})
+
+	// 3b. the attacker's server proves its own key over deliberately wrong pre-images
+	{
+		type variant struct {
+			name string
+			data func(ch string) []byte
+		}
+		cpk := string(cl.pubBytes)
+		full := func(ch string) []kv {
+			return []kv{{"challenge-server", ch}, {"client-public-key", cpk}, {"hostname", host}}
+		}
+		sub := func(ch string, i int, v string) []kv { o := full(ch); o[i].v = v; return o }
+		var vs []variant
+		for mask := 0; mask < 7; mask++ {
+			var nm []string
+			for i, k := range []string{"challenge-server", "client-public-key", "hostname"} {
+				if mask&(1<<i) != 0 {
+					nm = append(nm, k)
+				}
+			}
+			vs = append(vs, variant{"only[" + strings.Join(nm, ",") + "]", func(ch string) []byte {
+				var ps []kv
+				for i, p := range full(ch) {
+					if mask&(1<<i) != 0 {
+						ps = append(ps, p)
+					}
+				}
+				return signedData(ps...)
+			}})
+		}
+		vs = append(vs,
+			variant{"challenge=decoded-bytes", func(ch string) []byte { return signedData(sub(ch, 0, string(mustB64(ch)))...) }},
+			variant{"challenge=other", func(ch string) []byte { return signedData(sub(ch, 0, sc.challenge())...) }},
+			variant{"challenge=earlier-run", func(ch string) []byte {
+				return signedData(sub(ch, 0, earlierChallenge)...)
+			}},
+			variant{"client-key=other-client", func(ch string) []byte { return signedData(sub(ch, 1, string(otherClient.pubBytes))...) }},
+			variant{"client-key=server-key", func(ch string) []byte { return signedData(sub(ch, 1, string(E.id.pubBytes))...) }},
+			variant{"client-key=base64-text", func(ch string) []byte { return signedData(sub(ch, 1, b64(cl.pubBytes))...) }},
+			variant{"hostname=other-valid", func(ch string) []byte { return signedData(sub(ch, 2, other)...) }},
+			variant{"hostname=uppercase", func(ch string) []byte { return signedData(sub(ch, 2, strings.ToUpper(host))...) }},
+			variant{"hostname=empty", func(ch string) []byte { return signedData(sub(ch, 2, "")...) }},
+			variant{"no-prefix", func(ch string) []byte { return signedDataOpt("", true, true, full(ch)...) }},
+			variant{"unsorted", func(ch string) []byte { f := full(ch); return signedDataOpt(scheme, false, true, f[2], f[1], f[0]) }},
+			variant{"no-length-prefixes", func(ch string) []byte { return signedDataOpt(scheme, true, false, full(ch)...) }},
+			variant{"client-role-keys", func(ch string) []byte {
+				return signedData(kv{"challenge-client", ch}, kv{"server-public-key", cpk}, kv{"hostname", host})
+			}},
+		)
+		for i, k := range []string{"challenge-server", "client-public-key", "hostname"} {
+			vs = append(vs,
+				variant{k + "=empty-value", func(ch string) []byte { return signedData(sub(ch, i, "")...) }},
+				variant{k + "=first-half", func(ch string) []byte { v := full(ch)[i].v; return signedData(sub(ch, i, v[:len(v)/2])...) }},
+				variant{k + "=second-half", func(ch string) []byte { v := full(ch)[i].v; return signedData(sub(ch, i, v[len(v)/2:])...) }},
+				variant{k + "=plus-one-byte", func(ch string) []byte { return signedData(sub(ch, i, full(ch)[i].v+"\x00")...) }})
+		}
+		for _, v := range vs {
+			runPlan("evil-server:wrong-preimage", v.name, func(s int, req *http.Request) *http.Response {
+				resp := def(s, req)
+				if s == keyStep {
+					resp.Header.Set("WWW-Authenticate", buildHeader(setParam(orderedParams(resp.Header.Get("WWW-Authenticate")), "public-key", evilKey)))
+				}
+				if s == sigStep {
+					ch := getParam(orderedParams(req.Header.Get("Authorization")), "challenge-server")
+					resp.Header.Set(sigHeader, buildHeader(setParam(orderedParams(resp.Header.Get(sigHeader)), "sig", sign(E.id, v.data(ch)))))
+				}
+				return resp
+			})
+		}
+	}
 
 	// 4. relays that make the HONEST server sign something else than what this client must see
 	runPlan("relay", "honest-server-under-other-hostname", func(s int, req *http.Request) *http.Response {
